@@ -11,7 +11,12 @@ RULE = ('gin-machine/call: 1-4 probe configurables with generated signatures (po
         '(prefixes, non-prefixes, permutations), calls under nested config_scope blocks (string, a/b '
         'shorthand, list) with every parameter passed positionally / by keyword / omitted. '
         'non-trivial = active scope depth >= 2 with a binding at >= 2 different prefixes of it for the '
-        'called configurable AND a caller-supplied parameter that also has an applicable binding.')
+        'called configurable AND a caller-supplied parameter that also has an applicable binding. '
+        'callable-shapes (implementation only): one probe whose signature Gin must look for (under 1-2 functools.wraps '
+        'decorators; a configurable / registered class inheriting the __init__ of a configurable base class; bound method, '
+        'class method, static method, callable object through external_configurable; metaclass-wrapped classes with '
+        'constructor parameters named like parameters of Gin\'s own wrappers), 1-5 bindings over prefixes / non-prefixes '
+        'of the active scope, every split positional / keyword / omitted; expectation from the property text.')
 TRUSTED_BASE = [
     'Coq 8.16.1 kernel; vm_compute in Examples and in the correspondence run; no native_compute',
     'axioms: none expected (see print_assumptions)',
@@ -359,4 +364,190 @@ class LateClassEngine(Engine):
     return {'obs': T('Done'), 'fails': fails[:3], 'nontrivial': True, 'tags': [case['api']]}
 
 
-ENGINES = [CallEngine(), LateClassEngine()]
+# ----------------------------------------------------------------------------
+# callable shapes whose signature Gin has to look for: behind a decorator, behind its own wrapper of a base class, behind an
+# already bound self / cls; and constructor parameters named like a parameter of one of Gin's own wrappers
+
+SHAPES = ['fn', 'cfg_class', 'ext_class', 'reg_class', 'sub_cfg', 'subsub_cfg', 'sub_ext', 'sub_reg', 'decorated1', 'decorated2',
+          'bound_method', 'class_method', 'static_method', 'callable_instance']
+CLASS_SHAPES = ('cfg_class', 'ext_class', 'reg_class', 'sub_cfg', 'subsub_cfg', 'sub_ext', 'sub_reg')
+# ordinary names, and names Gin's own wrappers use for their parameters / locals (config.py: meta_call_wrapper, gin_wrapper)
+PARAM_SETS = [['a', 'b', 'c'], ['a', 'b'], ['x'], ['new_cls', 'other'], ['a', 'new_cls'], ['fn', 'cls_meta', 'new_kwargs']]
+SHAPE_MODULE = 'shapesmod'
+
+
+def build_shape(gin, shape, params, required=0):
+  """registers one probe configurable `shapesmod.probe` of the given shape whose parameters are `params` (the first `required`
+  without default, the others defaulting to 'default:<p>').  returns call(*args, **kwargs) -> {param: value received}."""
+  sig = ', '.join(p if i < required else "%s='default:%s'" % (p, p) for i, p in enumerate(params))
+  env = 'dict(%s)' % ', '.join('%s=%s' % (p, p) for p in params)
+  ns = {'gin': gin, '__name__': SHAPE_MODULE}
+  src = ('import functools\n'
+         'def logged(fn):\n'
+         '  @functools.wraps(fn)\n'
+         '  def wrapper(*args, **kwargs):\n'
+         '    return fn(*args, **kwargs)\n'
+         '  return wrapper\n')
+  if shape in ('fn', 'decorated1', 'decorated2'):
+    src += 'def probe(%s):\n  return %s\n' % (sig, env)
+    exec(src, ns)  # pylint: disable=exec-used
+    f = ns['probe']
+    for _ in range({'fn': 0, 'decorated1': 1, 'decorated2': 2}[shape]):
+      f = ns['logged'](f)
+    return gin.configurable('probe', module=SHAPE_MODULE)(f)
+  if shape in CLASS_SHAPES:
+    src += 'class Base:\n  def __init__(self, %s):\n    self.env = %s\n' % (sig, env)
+    src += 'class Sub(Base):\n  pass\nclass SubSub(Sub):\n  pass\n'
+    exec(src, ns)  # pylint: disable=exec-used
+    Base, Sub, SubSub = ns['Base'], ns['Sub'], ns['SubSub']
+    if shape == 'cfg_class':
+      cls = gin.configurable('probe', module=SHAPE_MODULE)(Base)
+    elif shape == 'ext_class':
+      cls = gin.external_configurable(Base, name='probe', module=SHAPE_MODULE)
+    elif shape == 'reg_class':
+      gin.register('probe', module=SHAPE_MODULE)(Base)
+      cls = gin.get_configurable(Base)
+    else:
+      gin.configurable('probe_base', module=SHAPE_MODULE)(Base)       # the base class is itself configurable ...
+      if shape == 'sub_cfg':
+        cls = gin.configurable('probe', module=SHAPE_MODULE)(Sub)      # ... and so is the subclass, which inherits __init__
+      elif shape == 'subsub_cfg':
+        gin.configurable('probe_mid', module=SHAPE_MODULE)(Sub)
+        cls = gin.configurable('probe', module=SHAPE_MODULE)(SubSub)
+      elif shape == 'sub_ext':
+        cls = gin.external_configurable(Sub, name='probe', module=SHAPE_MODULE)
+      else:
+        gin.register('probe', module=SHAPE_MODULE)(Sub)
+        cls = gin.get_configurable(Sub)
+    return lambda *a, **k: cls(*a, **k).env
+  src += ('class K:\n'
+          '  def meth(self, %s):\n    return %s\n'
+          '  @classmethod\n  def cmeth(cls, %s):\n    return %s\n'
+          '  @staticmethod\n  def smeth(%s):\n    return %s\n'
+          '  def __call__(self, %s):\n    return %s\n') % ((sig, env) * 4)
+  exec(src, ns)  # pylint: disable=exec-used
+  K = ns['K']
+  target = {'bound_method': K().meth, 'class_method': K.cmeth, 'static_method': K.smeth, 'callable_instance': K()}[shape]
+  return gin.external_configurable(target, name='probe', module=SHAPE_MODULE)
+
+
+def shape_expectation(case):
+  """who supplies each parameter, from the property text alone: the caller's value; else the binding under the longest prefix
+  of the active scope; else the function's own default.  returns ({param: value}, {param: source}) or None when some parameter
+  would be left without any value (then Python itself refuses the call)."""
+  active = case['active']
+  exp, why = {}, {}
+  for i, p in enumerate(case['params']):
+    if i < case['npos']:
+      exp[p], why[p] = 'pos:%d' % i, 'caller-positional'
+    elif p in case['kw']:
+      exp[p], why[p] = 'kw:' + p, 'caller-keyword'
+    else:
+      best = None
+      for sc, q in case['binds']:
+        scl = sc.split('/') if sc else []
+        if q == p and scl == active[:len(scl)] and (best is None or len(scl) > len(best)):
+          best = scl
+      if best is not None:
+        exp[p], why[p] = 'bound@%s:%s' % ('/'.join(best), p), 'binding'
+      elif i >= case['required']:
+        exp[p], why[p] = 'default:' + p, 'default'
+      else:
+        return None
+  return exp, why
+
+
+def gen_shape_case(rng, shapes=None, param_sets=None):
+  shape = rng.choice(shapes or SHAPES)
+  params = list(rng.choice(param_sets or PARAM_SETS))
+  required = rng.choice([0, 0, 1]) if len(params) > 1 else 0
+  active = ginm.gen_scope(rng, 3)
+  binds = []
+  for _ in range(rng.randint(1, 5)):
+    r = rng.random()
+    if r < 0.65:
+      sc = active[:rng.randint(0, len(active))]
+    elif r < 0.85:
+      sc = ginm.gen_scope(rng, 2)
+    else:
+      sc = list(reversed(active))
+    b = ['/'.join(sc), rng.choice(params)]
+    if b not in binds:
+      binds.append(b)
+  npos = rng.randint(0, len(params))
+  kw = [p for p in params[npos:] if rng.random() < 0.3]
+  case = {'shape': shape, 'params': params, 'required': required, 'active': active, 'binds': binds, 'npos': npos, 'kw': kw}
+  if shape_expectation(case) is None:
+    case['binds'] = binds + [['', p] for p in params[:required] if ['', p] not in binds]
+  return case
+
+
+class CallableShapesEngine(Engine):
+  """the rule of the property on callable shapes whose parameter names Gin has to look for: a function under one or two
+  functools.wraps decorators; a configurable (or registered) class that inherits the __init__ of a configurable base class (that
+  __init__ is Gin's own wrapper); bound methods, class methods, static methods and callable objects made configurable through
+  external_configurable; classes reached through the metaclass wrapper (register / external_configurable) whose constructor
+  parameters are named like parameters of Gin's own wrappers.  For every split of the arguments between positional, keyword
+  and omitted: the caller's values arrive unchanged, the others come from the binding under the longest prefix of the active
+  scope, else from the default.  Implementation only: the model is given the signature, it does not look for it."""
+  name = 'callable-shapes'
+  model = False
+  shapes = SHAPES
+
+  def budget(self, tier):
+    return 160 if tier == 'quick' else 4000
+
+  def corpus(self):
+    out = []
+    for shape in self.shapes:
+      for npos, kw in ((0, []), (1, []), (2, []), (0, ['a']), (1, ['c'])):
+        out.append({'shape': shape, 'params': ['a', 'b', 'c'], 'required': 0, 'active': ['s1', 's2'],
+                    'binds': [['', 'a'], ['s1', 'a'], ['s1/s2', 'b'], ['s2', 'c'], ['s2/s1', 'b']], 'npos': npos, 'kw': kw})
+    for shape in self.shapes:
+      for params in (['new_cls', 'other'], ['other', 'new_cls']):
+        for npos, kw, binds in ((0, ['new_cls'], [['', 'other']]), (0, [], [['', 'new_cls'], ['s1', 'other']]),
+                                (1, [], [['', 'new_cls'], ['', 'other']])):
+          out.append({'shape': shape, 'params': params, 'required': 0, 'active': ['s1'], 'binds': binds, 'npos': npos, 'kw': kw})
+    return out
+
+  def gen(self, rng, tier):
+    return gen_shape_case(rng, self.shapes)
+
+  def impl(self, case):
+    spec = shape_expectation(case)
+    if spec is None:
+      return {'obs': T('Skipped'), 'fails': [], 'nontrivial': False, 'tags': ['unsatisfiable']}
+    exp, why = spec
+    gin = C.fresh_gin()
+    call = build_shape(gin, case['shape'], case['params'], case['required'])
+    for sc, p in case['binds']:
+      gin.bind_parameter((sc + '/' if sc else '') + 'probe.' + p, 'bound@%s:%s' % (sc, p))
+    args = ['pos:%d' % i for i in range(case['npos'])]
+    kwargs = {p: 'kw:' + p for p in case['kw']}
+    what = '%s probe(%s) called with args=%r kwargs=%r under scope %r, bindings %r' % (
+        case['shape'], ', '.join(case['params']), args, kwargs, '/'.join(case['active']), case['binds'])
+    fails = []
+    try:
+      with gin.config_scope(list(case['active']) or None):
+        got = call(*args, **kwargs)
+    except Exception as e:  # pylint: disable=broad-except
+      # every parameter has a value and the caller passes none twice: nothing entitles Gin to refuse the call
+      split = 'positional' if args else 'keyword' if kwargs else 'no'
+      fails.append(('call-with-%s-arguments-raised' % split, '%s raised %s: %s; the property requires %r' %
+                    (what, type(e).__name__, str(e).splitlines()[0][:160], exp)))
+      got = None
+    if got is not None:
+      for p in case['params']:
+        if got.get(p) != exp[p]:
+          kind = {'caller-positional': 'caller-value-not-delivered', 'caller-keyword': 'caller-value-not-delivered',
+                  'binding': 'binding-not-delivered', 'default': 'default-not-kept'}[why[p]]
+          fails.append((kind, '%s: parameter %r received %r, the property requires %r (%s)' % (what, p, got.get(p), exp[p], why[p])))
+          break
+    supplied = set(case['params'][:case['npos']]) | set(case['kw'])
+    bound = {p for p in case['params'] if any(q == p for _, q in case['binds'])}
+    nontrivial = case['shape'] != 'fn' and bool(supplied & bound) and 'binding' in why.values()
+    return {'obs': T('Done'), 'fails': fails[:3], 'nontrivial': nontrivial,
+            'tags': [case['shape'], 'err' if got is None else 'ok']}
+
+
+ENGINES = [CallEngine(), LateClassEngine(), CallableShapesEngine()]
